@@ -155,10 +155,34 @@ NodeMatches(e, n, D, withReply) ==
       [] o.rel = "skip" -> TRUE
       [] OTHER          -> FALSE
 
+\* Open finding ReplApplyClock, with clocks that differ: a key that is past its deadline on ONE node's clock is
+\* deleted through the log by that node (it comes across the expired entry while applying), also on nodes where
+\* it is still live.  Keys that may vanish this way during a step:
+ExpiredSomewhere(e, n, D) ==
+    LET o == NodeOutcome(e, n, D) IN
+    {x \in (DOMAIN R.data[n]) \cup (DOMAIN o.S) :
+        \E m \in Members(e) :
+            \/ x \in DOMAIN R.data[m] /\ ~LiveEnt(R.data[m][x], e.now[m])
+            \/ x \in DOMAIN o.S /\ ~LiveEnt(o.S[x], e.now[m])}
+
+NodeMatchesLoose(e, n, D, withReply) ==
+    LET o   == NodeOutcome(e, n, D)
+        exp == Norm(o.S, e.now[n])
+        got == Norm(Obs(e)[n], e.now[n]) IN
+    CASE o.rel = "eq"   -> /\ withReply => ReplyEq(o.r, e.r)
+                           /\ DOMAIN got \subseteq DOMAIN exp
+                           /\ \A x \in DOMAIN got : got[x] = exp[x]
+                           /\ (DOMAIN exp) \ (DOMAIN got) \subseteq ExpiredSomewhere(e, n, D)
+      [] o.rel = "skip" -> TRUE
+      [] OTHER          -> FALSE
+
 Skipped(e) == NodeOutcome(e, e.node, {}).rel = "skip"
 
 \* the deviation sets (of open sequential findings) under which every node's outcome is explained
-AllMatch(e, ns, D, replyNode) == \A n \in ns : NodeMatches(e, n, D, n = replyNode)
+AllMatch(e, ns, D, replyNode) ==
+    \A n \in ns : \/ NodeMatches(e, n, D, n = replyNode)
+                  \/ /\ HasDev("ReplApplyClock") /\ Skewed(e) /\ e.ndel[n] > 0
+                     /\ NodeMatchesLoose(e, n, D, n = replyNode)
 Explaining(e, ns, replyNode) ==
     IF AllMatch(e, ns, {}, replyNode) THEN {{}}
     ELSE {D \in SUBSET (RelevantDevs(e.cmd) \cap Deviations) : AllMatch(e, ns, D, replyNode)}
